@@ -1,51 +1,714 @@
 import PbVerif.Model.Whittaker
 import PbVerif.Lemmas.Banded
+import Mathlib.Tactic.Ring
+import Mathlib.Algebra.Order.Field.Rat
 /-! Lemmas for C06: every banded assembly denotes the documented matrix. -/
+set_option linter.unusedVariables false
 namespace PbVerif.Lemmas
 open PbVerif.Banded PbVerif.Whittaker
 
+/-- entry (r, c) of a band table, zero outside -/
+def ent (ab : List (List Rat)) (r c : Nat) : Rat := (ab.getD r []).getD c 0
+
+/-- all R rows have length n -/
+def TblShape (ab : List (List Rat)) (R n : Nat) : Prop :=
+  ab.length = R ∧ ∀ r, r < R → (ab.getD r []).length = n
+
+theorem getD_map_range {α} (a k : Nat) (f : Nat → α) (dflt : α) :
+    ((List.range a).map f).getD k dflt = if k < a then f k else dflt := by
+  simp only [List.getD_eq_getElem?_getD, List.getElem?_map]
+  by_cases h : k < a
+  · rw [List.getElem?_range h, if_pos h]; rfl
+  · rw [List.getElem?_eq_none (by simpa using h), if_neg h]; rfl
+
+theorem getD_map' {α β} (l : List α) (f : α → β) (k : Nat) (d : α) (e : β) (h : f d = e) :
+    (l.map f).getD k e = f (l.getD k d) := by
+  simp only [List.getD_eq_getElem?_getD, List.getElem?_map]
+  cases l[k]? <;> simp [h]
+
+theorem getD_oob {α} (l : List α) (k : Nat) (d : α) (h : l.length ≤ k) : l.getD k d = d := by
+  simp only [List.getD_eq_getElem?_getD]
+  rw [List.getElem?_eq_none h]; rfl
+
+theorem getD_zipWith_mul (a b : List Rat) (k : Nat) :
+    (List.zipWith (· * ·) a b).getD k 0 = a.getD k 0 * b.getD k 0 := by
+  simp only [List.getD_eq_getElem?_getD, List.getElem?_zipWith]
+  cases a[k]? <;> cases b[k]? <;> simp
+
+theorem getD_zipWith_add (a b : List Rat) (k : Nat) (h : a.length = b.length) :
+    (List.zipWith (· + ·) a b).getD k 0 = a.getD k 0 + b.getD k 0 := by
+  simp only [List.getD_eq_getElem?_getD, List.getElem?_zipWith]
+  by_cases hk : k < a.length
+  · rw [List.getElem?_eq_getElem hk, List.getElem?_eq_getElem (h ▸ hk)]; simp
+  · rw [List.getElem?_eq_none (by omega), List.getElem?_eq_none (by omega)]; simp
+
+theorem getD_modify' {α} (l : List α) (d : α) (f : α → α) (i j : Nat) :
+    (l.modify i f).getD j d = if i = j ∧ j < l.length then f (l.getD j d) else l.getD j d := by
+  simp only [List.getD_eq_getElem?_getD, List.getElem?_modify]
+  by_cases hj : j < l.length
+  · simp only [List.getElem?_eq_getElem hj, hj, and_true]
+    split <;> simp
+  · simp only [hj, and_false, if_false]
+    rw [List.getElem?_eq_none (by omega)]; rfl
+
+theorem getD_reverse' {α} (l : List α) (d : α) (k : Nat) :
+    l.reverse.getD k d = if k < l.length then l.getD (l.length - 1 - k) d else d := by
+  simp only [List.getD_eq_getElem?_getD]
+  by_cases hk : k < l.length
+  · rw [List.getElem?_reverse hk, if_pos hk]
+  · rw [List.getElem?_eq_none (by simp; omega), if_neg hk]; rfl
+
+/-! ### entries of the basic operations -/
+
+theorem ent_oob_row (ab : List (List Rat)) (r c : Nat) (h : ab.length ≤ r) : ent ab r c = 0 := by
+  unfold ent; rw [getD_oob _ _ _ h]; rfl
+
+theorem ent_oob_col (ab : List (List Rat)) (R n r c : Nat) (hs : TblShape ab R n) (h : n ≤ c) : ent ab r c = 0 := by
+  by_cases hr : r < R
+  · unfold ent; rw [getD_oob _ _ _ (by rw [hs.2 r hr]; exact h)]
+  · exact ent_oob_row _ _ _ (by rw [hs.1]; omega)
+
+theorem ent_scale (c : Rat) (ab : List (List Rat)) (r k : Nat) : ent (scale c ab) r k = c * ent ab r k := by
+  unfold ent scale
+  rw [getD_map' ab _ r [] [] rfl, getD_map' _ _ k 0 0 (by simp)]
+
+theorem shape_scale (c : Rat) (ab : List (List Rat)) (R n : Nat) (h : TblShape ab R n) : TblShape (scale c ab) R n := by
+  refine ⟨by simp [scale, h.1], fun r hr => ?_⟩
+  unfold scale
+  rw [getD_map' ab _ r [] [] rfl, List.length_map, h.2 r hr]
+
+theorem ent_colScale (ab : List (List Rat)) (w : List Rat) (r k : Nat) :
+    ent (colScale ab w) r k = ent ab r k * w.getD k 0 := by
+  unfold ent colScale
+  rw [getD_map' ab _ r [] [] rfl, getD_zipWith_mul]
+
+theorem shape_colScale (ab : List (List Rat)) (w : List Rat) (R n : Nat) (h : TblShape ab R n) (hw : w.length = n) :
+    TblShape (colScale ab w) R n := by
+  refine ⟨by simp [colScale, h.1], fun r hr => ?_⟩
+  unfold colScale
+  rw [getD_map' ab _ r [] [] rfl, List.length_zipWith, h.2 r hr, hw]; omega
+
+theorem ent_addB (a b : List (List Rat)) (R n r k : Nat) (ha : TblShape a R n) (hb : TblShape b R n) :
+    ent (addB a b) r k = ent a r k + ent b r k := by
+  unfold ent addB
+  by_cases hr : r < R
+  · have e : (List.zipWith (List.zipWith (· + ·)) a b).getD r [] = List.zipWith (· + ·) (a.getD r []) (b.getD r []) := by
+      simp only [List.getD_eq_getElem?_getD, List.getElem?_zipWith]
+      rw [List.getElem?_eq_getElem (by rw [ha.1]; exact hr), List.getElem?_eq_getElem (by rw [hb.1]; exact hr)]; simp
+    rw [e, getD_zipWith_add _ _ _ (by rw [ha.2 r hr, hb.2 r hr])]
+  · rw [getD_oob _ r _ (by simp [ha.1, hb.1]; omega), getD_oob a r _ (by rw [ha.1]; omega),
+      getD_oob b r _ (by rw [hb.1]; omega)]; simp
+
+theorem shape_addB (a b : List (List Rat)) (R n : Nat) (ha : TblShape a R n) (hb : TblShape b R n) :
+    TblShape (addB a b) R n := by
+  refine ⟨by simp [addB, ha.1, hb.1], fun r hr => ?_⟩
+  unfold addB
+  have e : (List.zipWith (List.zipWith (· + ·)) a b).getD r [] = List.zipWith (· + ·) (a.getD r []) (b.getD r []) := by
+    simp only [List.getD_eq_getElem?_getD, List.getElem?_zipWith]
+    rw [List.getElem?_eq_getElem (by rw [ha.1]; exact hr), List.getElem?_eq_getElem (by rw [hb.1]; exact hr)]; simp
+  rw [e, List.length_zipWith, ha.2 r hr, hb.2 r hr]; omega
+
+theorem ent_addRow (ab : List (List Rat)) (k : Nat) (w : List Rat) (R n r c : Nat) (h : TblShape ab R n) (hw : w.length = n) :
+    ent (addRow ab k w) r c = if r = k ∧ r < R then ent ab r c + w.getD c 0 else ent ab r c := by
+  unfold ent addRow
+  rw [getD_modify', h.1]
+  by_cases hk : r = k ∧ r < R
+  · rw [if_pos ⟨hk.1.symm, hk.2⟩, if_pos hk, getD_zipWith_add _ _ _ (by rw [h.2 r hk.2, hw])]
+  · rw [if_neg (by omega), if_neg hk]
+
+theorem shape_addRow (ab : List (List Rat)) (k : Nat) (w : List Rat) (R n : Nat) (h : TblShape ab R n) (hw : w.length = n) :
+    TblShape (addRow ab k w) R n := by
+  refine ⟨by simp [addRow, h.1], fun r hr => ?_⟩
+  unfold addRow
+  rw [getD_modify']
+  split
+  · rw [List.length_zipWith, h.2 r hr, hw]; omega
+  · exact h.2 r hr
+
+theorem ent_addRowC (ab : List (List Rat)) (k : Nat) (c0 : Rat) (R n r c : Nat) (h : TblShape ab R n) :
+    ent (addRowC ab k c0) r c = if r = k ∧ r < R ∧ c < n then ent ab r c + c0 else ent ab r c := by
+  unfold ent addRowC
+  rw [getD_modify', h.1]
+  by_cases hk : r = k ∧ r < R
+  · rw [if_pos ⟨hk.1.symm, hk.2⟩]
+    by_cases hc : c < n
+    · rw [if_pos ⟨hk.1, hk.2, hc⟩]
+      have hl : c < (ab.getD r []).length := by rw [h.2 r hk.2]; exact hc
+      simp only [List.getD_eq_getElem?_getD, List.getElem?_map] at hl ⊢
+      rw [List.getElem?_eq_getElem hl]; simp
+    · rw [if_neg (by omega), getD_oob _ c _ (by rw [List.length_map, h.2 r hk.2]; omega),
+        getD_oob _ c _ (by rw [h.2 r hk.2]; omega)]
+  · rw [if_neg (by omega), if_neg (by omega)]
+
+theorem shape_addRowC (ab : List (List Rat)) (k : Nat) (c0 : Rat) (R n : Nat) (h : TblShape ab R n) :
+    TblShape (addRowC ab k c0) R n := by
+  refine ⟨by simp [addRowC, h.1], fun r hr => ?_⟩
+  unfold addRowC
+  rw [getD_modify']
+  split
+  · rw [List.length_map, h.2 r hr]
+  · exact h.2 r hr
+
+theorem ent_reverse (ab : List (List Rat)) (R r c : Nat) (h : ab.length = R) :
+    ent ab.reverse r c = if r < R then ent ab (R - 1 - r) c else 0 := by
+  unfold ent
+  rw [getD_reverse', h]
+  split <;> rfl
+
+theorem shape_reverse (ab : List (List Rat)) (R n : Nat) (h : TblShape ab R n) : TblShape ab.reverse R n := by
+  refine ⟨by simp [h.1], fun r hr => ?_⟩
+  rw [getD_reverse', h.1, if_pos hr]
+  exact h.2 _ (by omega)
+
+
+theorem getD_append' {α} (a b : List α) (k : Nat) (d : α) :
+    (a ++ b).getD k d = if k < a.length then a.getD k d else b.getD (k - a.length) d := by
+  simp only [List.getD_eq_getElem?_getD]
+  by_cases h : k < a.length
+  · rw [List.getElem?_append_left h, if_pos h]
+  · rw [List.getElem?_append_right (by omega), if_neg h]
+
+theorem getD_replicate' {α} (m k : Nat) (a d : α) :
+    (List.replicate m a).getD k d = if k < m then a else d := by
+  simp only [List.getD_eq_getElem?_getD, List.getElem?_replicate]
+  split <;> rfl
+
+theorem ent_zero_rows (p n r c : Nat) : ent (List.replicate p (List.replicate n (0:Rat))) r c = 0 := by
+  unfold ent
+  rw [getD_replicate']
+  split
+  · rw [getD_replicate']; split <;> rfl
+  · rfl
+
+theorem ent_append (a b : List (List Rat)) (r c : Nat) :
+    ent (a ++ b) r c = if r < a.length then ent a r c else ent b (r - a.length) c := by
+  unfold ent; rw [getD_append']; split <;> rfl
+
+theorem ent_padLower (ab : List (List Rat)) (p n r c : Nat) : ent (padLower ab p n) r c = ent ab r c := by
+  unfold padLower
+  rw [ent_append]
+  split
+  · rfl
+  · rw [ent_zero_rows, ent_oob_row _ _ _ (by omega)]
+
+theorem ent_padFull (ab : List (List Rat)) (p n r c : Nat) :
+    ent (padFull ab p n) r c = if p ≤ r then ent ab (r - p) c else 0 := by
+  unfold padFull
+  rw [List.append_assoc, ent_append, List.length_replicate]
+  by_cases h : r < p
+  · rw [if_pos h, if_neg (by omega), ent_zero_rows]
+  · rw [if_neg h, if_pos (by omega), ent_append]
+    split
+    · rfl
+    · rw [ent_zero_rows, ent_oob_row _ _ _ (by omega)]
+
+theorem shape_zero_rows (p n : Nat) : TblShape (List.replicate p (List.replicate n (0:Rat))) p n := by
+  refine ⟨by simp, fun r hr => ?_⟩
+  rw [getD_replicate', if_pos hr]; simp
+
+theorem shape_append (a b : List (List Rat)) (R S n : Nat) (ha : TblShape a R n) (hb : TblShape b S n) :
+    TblShape (a ++ b) (R + S) n := by
+  refine ⟨by simp [ha.1, hb.1], fun r hr => ?_⟩
+  rw [getD_append', ha.1]
+  split
+  · exact ha.2 r (by assumption)
+  · exact hb.2 _ (by omega)
+
+theorem shape_padLower (ab : List (List Rat)) (p n R : Nat) (h : TblShape ab R n) : TblShape (padLower ab p n) (R + p) n :=
+  shape_append _ _ _ _ _ h (shape_zero_rows p n)
+
+theorem shape_padFull (ab : List (List Rat)) (p n R : Nat) (h : TblShape ab R n) : TblShape (padFull ab p n) (p + R + p) n :=
+  shape_append _ _ _ _ _ (shape_append _ _ _ _ _ (shape_zero_rows p n) h) (shape_zero_rows p n)
+
+/-! ### row shifts -/
+
+theorem getD_shiftLeftQ (s : Nat) (row : List Rat) (c : Nat) :
+    (shiftLeftQ s row).getD c 0 = row.getD (c + s) 0 := by
+  unfold shiftLeftQ
+  rw [getD_append', List.length_drop]
+  by_cases h : c < row.length - s
+  · rw [if_pos h]
+    simp only [List.getD_eq_getElem?_getD, List.getElem?_drop]
+    rw [Nat.add_comm]
+  · rw [if_neg h, getD_replicate', getD_oob row _ _ (by omega)]
+    split <;> rfl
+
+theorem getD_shiftRightQ (s : Nat) (row : List Rat) (c : Nat) :
+    (shiftRightQ s row).getD c 0 = if c < s ∨ row.length ≤ c then 0 else row.getD (c - s) 0 := by
+  unfold shiftRightQ
+  rw [getD_append', List.length_replicate]
+  by_cases h : c < min s row.length
+  · rw [if_pos h, getD_replicate', if_pos h, if_pos (by omega)]
+  · rw [if_neg h]
+    by_cases h2 : row.length ≤ c
+    · rw [if_pos (Or.inr h2), getD_oob _ _ _ (by rw [List.length_take]; omega)]
+    · rw [if_neg (by omega)]
+      have e : min s row.length = s := by omega
+      rw [e]
+      simp only [List.getD_eq_getElem?_getD]
+      rw [List.getElem?_take_of_lt (by omega)]
+
+theorem length_shiftLeftQ (s : Nat) (row : List Rat) : (shiftLeftQ s row).length = row.length := by
+  simp [shiftLeftQ]; omega
+theorem length_shiftRightQ (s : Nat) (row : List Rat) : (shiftRightQ s row).length = row.length := by
+  simp [shiftRightQ]; omega
+
+theorem getD_shiftRows (ab : List (List Rat)) (u l r : Nat) (hr : r < ab.length) :
+    (shiftRows ab u l).getD r [] =
+      if r < u then shiftRightQ (u - r) (ab.getD r [])
+      else if ab.length - l ≤ r then shiftLeftQ (r + 1 - (ab.length - l)) (ab.getD r [])
+      else ab.getD r [] := by
+  unfold shiftRows
+  simp only [List.getD_eq_getElem?_getD, List.getElem?_map, List.getElem?_zipIdx]
+  rw [List.getElem?_eq_getElem hr]
+  simp
+
+theorem length_shiftRows (ab : List (List Rat)) (u l : Nat) : (shiftRows ab u l).length = ab.length := by
+  simp [shiftRows]
+
+theorem shape_shiftRows (ab : List (List Rat)) (u l R n : Nat) (h : TblShape ab R n) : TblShape (shiftRows ab u l) R n := by
+  refine ⟨by rw [length_shiftRows, h.1], fun r hr => ?_⟩
+  rw [getD_shiftRows _ _ _ _ (by rw [h.1]; exact hr)]
+  split
+  · rw [length_shiftRightQ]; exact h.2 r hr
+  · split
+    · rw [length_shiftLeftQ]; exact h.2 r hr
+    · exact h.2 r hr
+
+/-- entries of `shiftRows ab d d` for a table with 2d+1 rows of length n -/
+theorem ent_shiftRows (ab : List (List Rat)) (d n r c : Nat) (h : TblShape ab (2 * d + 1) n) (hr : r ≤ 2 * d) (hc : c < n) :
+    ent (shiftRows ab d d) r c =
+      if r < d then (if c < d - r then 0 else ent ab r (c - (d - r))) else ent ab r (c + (r - d)) := by
+  unfold ent
+  rw [getD_shiftRows _ _ _ _ (by rw [h.1]; omega), h.1]
+  by_cases h1 : r < d
+  · rw [if_pos h1, if_pos h1, getD_shiftRightQ, h.2 r (by omega)]
+    by_cases h2 : c < d - r
+    · rw [if_pos (Or.inl h2), if_pos h2]
+    · rw [if_neg (by omega), if_neg h2]
+  · rw [if_neg h1, if_neg h1]
+    by_cases h2 : r = d
+    · rw [if_neg (by omega)]; subst h2; simp
+    · rw [if_pos (by omega), getD_shiftLeftQ]
+      congr 1; omega
+
+
+/-! ### the penalty bands -/
+
+theorem ent_bandsQ_lower (n d r c : Nat) :
+    ent (bandsQ n d true) r c = if r ≤ d ∧ c < n then ((specLower n d r c : Int) : Rat) else 0 := by
+  unfold ent bandsQ specRows
+  simp only [if_true]
+  rw [getD_map' _ _ r [] [] rfl, getD_map_range, getD_map' _ _ c 0 0 (by simp)]
+  by_cases hr : r < d + 1
+  · rw [if_pos hr, getD_map_range]
+    by_cases hc : c < n
+    · rw [if_pos hc, if_pos ⟨by omega, hc⟩]
+    · rw [if_neg hc, if_neg (by omega)]; simp
+  · rw [if_neg hr, if_neg (by omega)]; simp
+
+theorem ent_bandsQ_full (n d r c : Nat) :
+    ent (bandsQ n d false) r c = if r ≤ 2 * d ∧ c < n then ((specFull n d r c : Int) : Rat) else 0 := by
+  unfold ent bandsQ specRows
+  simp only [Bool.false_eq_true, if_false]
+  rw [getD_map' _ _ r [] [] rfl, getD_map_range, getD_map' _ _ c 0 0 (by simp)]
+  by_cases hr : r < 2 * d + 1
+  · rw [if_pos hr, getD_map_range]
+    by_cases hc : c < n
+    · rw [if_pos hc, if_pos ⟨by omega, hc⟩]
+    · rw [if_neg hc, if_neg (by omega)]; simp
+  · rw [if_neg hr, if_neg (by omega)]; simp
+
+theorem shape_bandsQ_lower (n d : Nat) : TblShape (bandsQ n d true) (d + 1) n := by
+  refine ⟨by simp [bandsQ, specRows], fun r hr => ?_⟩
+  unfold bandsQ specRows
+  simp only [if_true]
+  rw [getD_map' _ _ r [] [] rfl, getD_map_range, if_pos hr]; simp
+
+theorem shape_bandsQ_full (n d : Nat) : TblShape (bandsQ n d false) (2 * d + 1) n := by
+  refine ⟨by simp [bandsQ, specRows], fun r hr => ?_⟩
+  unfold bandsQ specRows
+  simp only [Bool.false_eq_true, if_false]
+  rw [getD_map' _ _ r [] [] rfl, getD_map_range, if_pos hr]; simp
+
+/-- `D'D` vanishes outside the band (both sides) -/
+theorem DtD_band' (n d i j : Nat) (h : i + d < j ∨ j + d < i) : DtD n d i j = 0 := by
+  rcases h with h | h
+  · exact DtD_band n d i j h
+  · rw [DtD_symm]; exact DtD_band n d j i h
+
+theorem specLower_eq (n d r c : Nat) (h : c + r < n) : specLower n d r c = DtD n d (c + r) c := by
+  unfold specLower
+  rw [if_pos h, dtdOff_eq_DtD n d c r h, DtD_symm]
+
+/-- the full-storage entry that LAPACK reads for `A[i,j]` is `(D'D)[i,j]` -/
+theorem specFull_eq (n d i j : Nat) (hi : i < n) (hj : j < n) (h1 : j ≤ i + d) (h2 : i ≤ j + d) :
+    specFull n d (d + i - j) j = DtD n d i j := by
+  unfold specFull
+  by_cases h : j ≤ i
+  · rw [if_pos (by omega), specLower_eq n d _ j (by omega)]
+    congr 1; omega
+  · rw [if_neg (by omega), if_pos (by omega), dtdOff_eq_DtD n d _ _ (by omega)]
+    congr 1 <;> omega
+
+theorem ent_bandsQ_full_eq (n d i j : Nat) (hi : i < n) (hj : j < n) (h1 : j ≤ i + d) (h2 : i ≤ j + d) :
+    ent (bandsQ n d false) (d + i - j) j = dtdQ n d i j := by
+  rw [ent_bandsQ_full, if_pos ⟨by omega, hj⟩, specFull_eq n d i j hi hj h1 h2]; rfl
+
+theorem dtdQ_symm (n d i j : Nat) : dtdQ n d i j = dtdQ n d j i := by
+  unfold dtdQ; rw [DtD_symm]
+
+theorem dtdQ_band (n d i j : Nat) (h : i + d < j ∨ j + d < i) : dtdQ n d i j = 0 := by
+  unfold dtdQ; rw [DtD_band' n d i j h]; rfl
+
 /-- the fast offset form is the dense `D'D` -/
-theorem dtdFastQ_eq (n d i j : Nat) (hi : i < n) (hj : j < n) : dtdFastQ n d i j = dtdQ n d i j := by sorry
+theorem dtdFastQ_eq (n d i j : Nat) (hi : i < n) (hj : j < n) : dtdFastQ n d i j = dtdQ n d i j := by
+  unfold dtdFastQ dtdQ
+  by_cases h : i ≤ j
+  · rw [if_pos h, dtdOff_eq_DtD n d i (j - i) (by omega)]
+    have e : i + (j - i) = j := by omega
+    rw [e]
+  · rw [if_neg h, dtdOff_eq_DtD n d j (i - j) (by omega), DtD_symm]
+    have e : j + (i - j) = i := by omega
+    rw [e]
+
+theorem denLower_eq (ab : List (List Rat)) (i j : Nat) : denLower ab i j = ent ab (max i j - min i j) (min i j) := rfl
+theorem denFull_eq (ab : List (List Rat)) (u i j : Nat) :
+    denFull ab u i j = if j ≤ i + u ∧ u + i - j < ab.length then ent ab (u + i - j) j else 0 := rfl
+
+/-- lower-storage entry read for `A[i,j]` -/
+theorem ent_bandsQ_lower_eq (n d i j : Nat) (hi : i < n) (hj : j < n) :
+    ent (bandsQ n d true) (max i j - min i j) (min i j) = dtdQ n d i j := by
+  rw [ent_bandsQ_lower]
+  by_cases hb : max i j - min i j ≤ d
+  · rw [if_pos ⟨hb, by omega⟩, specLower_eq n d _ _ (by omega)]
+    unfold dtdQ
+    by_cases h : j ≤ i
+    · have e1 : min i j + (max i j - min i j) = i := by omega
+      have e2 : min i j = j := by omega
+      rw [e1, e2]
+    · have e1 : min i j + (max i j - min i j) = j := by omega
+      have e2 : min i j = i := by omega
+      rw [e1, e2, DtD_symm]
+  · rw [if_neg (by omega), dtdQ_band n d i j (by omega)]
 
 /-- lower storage of `bandsQ` denotes `D'D` -/
 theorem denLower_bandsQ (n d i j : Nat) (hi : i < n) (hj : j < n) :
-    denLower (bandsQ n d true) i j = dtdQ n d i j := by sorry
+    denLower (bandsQ n d true) i j = dtdQ n d i j := by
+  rw [denLower_eq, ent_bandsQ_lower_eq n d i j hi hj]
+
 /-- full storage of `bandsQ` denotes `D'D` -/
 theorem denFull_bandsQ (n d i j : Nat) (hi : i < n) (hj : j < n) :
-    denFull (bandsQ n d false) d i j = dtdQ n d i j := by sorry
+    denFull (bandsQ n d false) d i j = dtdQ n d i j := by
+  rw [denFull_eq, (shape_bandsQ_full n d).1]
+  by_cases h : j ≤ i + d ∧ d + i - j < 2 * d + 1
+  · rw [if_pos h, ent_bandsQ_full_eq n d i j hi hj h.1 (by omega)]
+  · rw [if_neg h, dtdQ_band n d i j (by omega)]
 
-/-- **standard Whittaker system**: `add_diagonal(w)` on `lam * penalty` denotes `W + λ D'D`, lower storage -/
+
+/-! ### the standard system -/
+
 theorem std_asm_den_lower (n d : Nat) (lam : Rat) (w : List Rat) (hw : w.length = n) (i j : Nat) (hi : i < n) (hj : j < n) :
-    denLower (asmStd n d lam w true false) i j = docStd n d lam w i j := by sorry
-/-- … full storage -/
+    denLower (asmStd n d lam w true false) i j = docStd n d lam w i j := by
+  show denLower (addRow (scale lam (bandsQ n d true)) 0 w) i j = _
+  rw [denLower_eq, ent_addRow _ _ _ (d + 1) n _ _ (shape_scale _ _ _ _ (shape_bandsQ_lower n d)) hw, ent_scale,
+    ent_bandsQ_lower_eq n d i j hi hj]
+  unfold docStd delta
+  by_cases h : i = j
+  · subst h
+    rw [if_pos ⟨by omega, by omega⟩, if_pos rfl, Nat.min_self]; ring
+  · rw [if_neg (by omega), if_neg h]; ring
+
 theorem std_asm_den_full (n d : Nat) (lam : Rat) (w : List Rat) (hw : w.length = n) (i j : Nat) (hi : i < n) (hj : j < n) :
-    denFull (asmStd n d lam w false false) d i j = docStd n d lam w i j := by sorry
-/-- … and the reversed full storage handed to pentapy is the un-reversed one read bottom-up -/
+    denFull (asmStd n d lam w false false) d i j = docStd n d lam w i j := by
+  show denFull (addRow (scale lam (bandsQ n d false)) d w) d i j = _
+  have hs := shape_scale lam _ _ _ (shape_bandsQ_full n d)
+  rw [denFull_eq, (shape_addRow _ d w _ _ hs hw).1]
+  unfold docStd delta
+  by_cases h : j ≤ i + d ∧ d + i - j < 2 * d + 1
+  · rw [if_pos h, ent_addRow _ _ _ _ n _ _ hs hw, ent_scale, ent_bandsQ_full_eq n d i j hi hj h.1 (by omega)]
+    by_cases h2 : i = j
+    · subst h2
+      rw [if_pos ⟨by omega, by omega⟩, if_pos rfl]; ring
+    · rw [if_neg (by omega), if_neg h2]; ring
+  · rw [if_neg h, if_neg (by omega), dtdQ_band n d i j (by omega)]; ring
+
+theorem reverse_modify_reverse {α} (l : List α) (k : Nat) (f : α → α) (hk : k < l.length) :
+    (l.reverse.modify k f).reverse = l.modify (l.length - 1 - k) f := by
+  apply List.ext_getElem?
+  intro i
+  by_cases hi : i < l.length
+  · rw [List.getElem?_reverse (by simpa using hi), List.getElem?_modify, List.getElem?_modify, List.length_modify,
+      List.length_reverse, List.getElem?_reverse (by omega)]
+    have e : l.length - 1 - (l.length - 1 - i) = i := by omega
+    rw [e]
+    by_cases h : k = l.length - 1 - i
+    · have h' : l.length - 1 - k = i := by omega
+      simp only [if_pos h, if_pos h']
+    · have h' : ¬ l.length - 1 - k = i := by omega
+      simp only [if_neg h, if_neg h']
+  · rw [List.getElem?_eq_none (by simp; omega), List.getElem?_eq_none (by simp; omega)]
+
 theorem std_asm_reversed (n d : Nat) (lam : Rat) (w : List Rat) :
-    (asmStd n d lam w false true).reverse = asmStd n d lam w false false := by sorry
+    (asmStd n d lam w false true).reverse = asmStd n d lam w false false := by
+  show (addRow (scale lam (bandsQ n d false)).reverse d w).reverse = addRow (scale lam (bandsQ n d false)) d w
+  have hl : (scale lam (bandsQ n d false)).length = 2 * d + 1 := (shape_scale lam _ _ _ (shape_bandsQ_full n d)).1
+  unfold addRow
+  rw [reverse_modify_reverse _ _ _ (by omega), hl]
+  congr 1; omega
 
-/-- iasls: `W'W + λ₁ D₁'D₁ + λ D'D` (d ≥ 1), lower and full storage -/
+
+/-! ### iasls -/
+
+theorem getD_map_sq (w : List Rat) (c : Nat) : (w.map fun v => v * v).getD c 0 = w.getD c 0 * w.getD c 0 :=
+  getD_map' w (fun v => v * v) c 0 0 (by simp)
+
+theorem ent_padFull_D1 (n d i j : Nat) (hd : 1 ≤ d) (hi : i < n) (hj : j < n) (h1 : j ≤ i + d) (h2 : i ≤ j + d) :
+    ent (padFull (bandsQ n 1 false) (d - 1) n) (d + i - j) j = dtdQ n 1 i j := by
+  rw [ent_padFull]
+  by_cases h : j ≤ i + 1
+  · rw [if_pos (by omega)]
+    have e : d + i - j - (d - 1) = 1 + i - j := by omega
+    rw [e]
+    by_cases h' : i ≤ j + 1
+    · exact ent_bandsQ_full_eq n 1 i j hi hj h h'
+    · rw [ent_bandsQ_full, if_neg (by omega), dtdQ_band n 1 i j (by omega)]
+  · rw [if_neg (by omega), dtdQ_band n 1 i j (by omega)]
+
+theorem shape_padLower_D1 (n d : Nat) (hd : 1 ≤ d) : TblShape (padLower (bandsQ n 1 true) (d - 1) n) (d + 1) n := by
+  have h := shape_padLower _ (d - 1) n _ (shape_bandsQ_lower n 1)
+  have e : 1 + 1 + (d - 1) = d + 1 := by omega
+  rw [e] at h; exact h
+
+theorem shape_padFull_D1 (n d : Nat) (hd : 1 ≤ d) : TblShape (padFull (bandsQ n 1 false) (d - 1) n) (2 * d + 1) n := by
+  have h := shape_padFull _ (d - 1) n _ (shape_bandsQ_full n 1)
+  have e : d - 1 + (2 * 1 + 1) + (d - 1) = 2 * d + 1 := by omega
+  rw [e] at h; exact h
+
 theorem iasls_asm_den_lower (n d : Nat) (lam lam1 : Rat) (w : List Rat) (hw : w.length = n) (hd : 1 ≤ d) (i j : Nat) (hi : i < n) (hj : j < n) :
-    denLower (asmIasls n d lam lam1 w true false) i j = docIasls n d lam lam1 w i j := by sorry
+    denLower (asmIasls n d lam lam1 w true false) i j = docIasls n d lam lam1 w i j := by
+  show denLower (addRow (addB (scale lam (bandsQ n d true)) (scale lam1 (padLower (bandsQ n 1 true) (d - 1) n))) 0
+    (w.map fun v => v * v)) i j = _
+  have hs1 := shape_scale lam _ _ _ (shape_bandsQ_lower n d)
+  have hs2 := shape_scale lam1 _ _ _ (shape_padLower_D1 n d hd)
+  rw [denLower_eq, ent_addRow _ _ _ (d + 1) n _ _ (shape_addB _ _ _ _ hs1 hs2) (by simpa using hw),
+    ent_addB _ _ _ _ _ _ hs1 hs2, ent_scale, ent_scale, ent_padLower,
+    ent_bandsQ_lower_eq n d i j hi hj, ent_bandsQ_lower_eq n 1 i j hi hj, getD_map_sq]
+  unfold docIasls delta
+  by_cases h : i = j
+  · subst h
+    rw [if_pos ⟨by omega, by omega⟩, if_pos rfl, Nat.min_self]; ring
+  · rw [if_neg (by omega), if_neg h]; ring
+
 theorem iasls_asm_den_full (n d : Nat) (lam lam1 : Rat) (w : List Rat) (hw : w.length = n) (hd : 1 ≤ d) (i j : Nat) (hi : i < n) (hj : j < n) :
-    denFull (asmIasls n d lam lam1 w false false) d i j = docIasls n d lam lam1 w i j := by sorry
-/-- iasls right-hand side: the closed form equals `D₁'D₁ y` for every length ≥ 2 -/
-theorem iasls_rhs (y : List Rat) (hn : 2 ≤ y.length) (i : Nat) (hi : i < y.length) :
-    (d1y y).getD i 0 = sumL ((List.range y.length).map fun (j : Nat) => dtdQ y.length 1 i j * y.getD j 0) := by sorry
+    denFull (asmIasls n d lam lam1 w false false) d i j = docIasls n d lam lam1 w i j := by
+  show denFull (addRow (addB (scale lam (bandsQ n d false)) (scale lam1 (padFull (bandsQ n 1 false) (d - 1) n))) d
+    (w.map fun v => v * v)) d i j = _
+  have hs1 := shape_scale lam _ _ _ (shape_bandsQ_full n d)
+  have hs2 := shape_scale lam1 _ _ _ (shape_padFull_D1 n d hd)
+  have hs := shape_addB _ _ _ _ hs1 hs2
+  have hw' : (w.map fun v => v * v).length = n := by simpa using hw
+  rw [denFull_eq, (shape_addRow _ d _ _ _ hs hw').1]
+  unfold docIasls delta
+  by_cases h : j ≤ i + d ∧ d + i - j < 2 * d + 1
+  · rw [if_pos h, ent_addRow _ _ _ _ n _ _ hs hw', ent_addB _ _ _ _ _ _ hs1 hs2, ent_scale, ent_scale,
+      ent_bandsQ_full_eq n d i j hi hj h.1 (by omega), ent_padFull_D1 n d i j hd hi hj h.1 (by omega), getD_map_sq]
+    by_cases h2 : i = j
+    · subst h2
+      rw [if_pos ⟨by omega, by omega⟩, if_pos rfl]; ring
+    · rw [if_neg (by omega), if_neg h2]; ring
+  · rw [if_neg h, if_neg (by omega), dtdQ_band n d i j (by omega), dtdQ_band n 1 i j (by omega)]; ring
 
-/-- key lemma: shifting the rows of the column-scaled REVERSED full bands of a symmetric banded matrix
-yields the LAPACK full bands of `diag(w) · P` -/
+/-! ### shifted, column-scaled, reversed bands (aspls, drpls) -/
+
+theorem denFull_shiftRows (T : List (List Rat)) (d n i j : Nat) (h : TblShape T (2 * d + 1) n) (hi : i < n) (hj : j < n) :
+    denFull (shiftRows T d d) d i j = if j ≤ i + d ∧ i ≤ j + d then ent T (d + i - j) i else 0 := by
+  rw [denFull_eq, length_shiftRows, h.1]
+  by_cases hb : j ≤ i + d ∧ i ≤ j + d
+  · rw [if_pos ⟨hb.1, by omega⟩, if_pos hb, ent_shiftRows T d n _ _ h (by omega) hj]
+    by_cases h1 : d + i - j < d
+    · rw [if_pos h1, if_neg (by omega)]
+      congr 1; omega
+    · rw [if_neg h1]
+      congr 1; omega
+  · rw [if_neg (by omega), if_neg hb]
+
+theorem ent_rev_bandsQ (n d i j : Nat) (hi : i < n) (hj : j < n) (h1 : j ≤ i + d) (h2 : i ≤ j + d) :
+    ent (bandsQ n d false).reverse (d + i - j) i = dtdQ n d i j := by
+  rw [ent_reverse _ _ _ _ (shape_bandsQ_full n d).1, if_pos (by omega)]
+  have e : 2 * d + 1 - 1 - (d + i - j) = d + j - i := by omega
+  rw [e, ent_bandsQ_full_eq n d j i hj hi h2 h1, dtdQ_symm]
+
 theorem shiftRows_reverse_colscale (n d : Nat) (w : List Rat) (hw : w.length = n) (i j : Nat) (hi : i < n) (hj : j < n) :
-    denFull (shiftRows (colScale (bandsQ n d false).reverse w) d d) d i j = w.getD i 0 * dtdQ n d i j := by sorry
+    denFull (shiftRows (colScale (bandsQ n d false).reverse w) d d) d i j = w.getD i 0 * dtdQ n d i j := by
+  rw [denFull_shiftRows _ d n i j (shape_colScale _ w _ _ (shape_reverse _ _ _ (shape_bandsQ_full n d)) hw) hi hj]
+  by_cases hb : j ≤ i + d ∧ i ≤ j + d
+  · rw [if_pos hb, ent_colScale, ent_rev_bandsQ n d i j hi hj hb.1 hb.2]; ring
+  · rw [if_neg hb, dtdQ_band n d i j (by omega)]; ring
 
-/-- aspls (SciPy branch): `W + λ diag(α) D'D` -/
 theorem aspls_asm_den (n d : Nat) (lam : Rat) (w alpha : List Rat) (hw : w.length = n) (ha : alpha.length = n)
     (i j : Nat) (hi : i < n) (hj : j < n) :
-    denFull (asmAspls n d lam w alpha false) d i j = docAspls n d lam w alpha i j := by sorry
+    denFull (asmAspls n d lam w alpha false) d i j = docAspls n d lam w alpha i j := by
+  show denFull (shiftRows (addRow (colScale (scale lam (bandsQ n d false)).reverse alpha) d w) d d) d i j = _
+  have hs0 := shape_scale lam _ _ _ (shape_bandsQ_full n d)
+  have hs1 := shape_colScale _ alpha _ _ (shape_reverse _ _ _ hs0) ha
+  rw [denFull_shiftRows _ d n i j (shape_addRow _ d w _ _ hs1 hw) hi hj]
+  unfold docAspls delta
+  by_cases hb : j ≤ i + d ∧ i ≤ j + d
+  · have hv : ent (colScale (scale lam (bandsQ n d false)).reverse alpha) (d + i - j) i
+        = lam * dtdQ n d i j * alpha.getD i 0 := by
+      rw [ent_colScale, ent_reverse _ _ _ _ hs0.1, if_pos (by omega), ent_scale]
+      have e : 2 * d + 1 - 1 - (d + i - j) = d + j - i := by omega
+      rw [e, ent_bandsQ_full_eq n d j i hj hi hb.2 hb.1, dtdQ_symm n d j i]
+    rw [if_pos hb, ent_addRow _ _ _ _ n _ _ hs1 hw, hv]
+    by_cases h2 : i = j
+    · subst h2
+      rw [if_pos ⟨by omega, by omega⟩, if_pos rfl]; ring
+    · rw [if_neg (by omega), if_neg h2]; ring
+  · rw [if_neg hb, if_neg (by omega), dtdQ_band n d i j (by omega)]; ring
 
-/-- drpls (SciPy branch): `W + D₁'D₁ + λ (I − η W) D'D` -/
 theorem drpls_asm_den (n d : Nat) (lam eta : Rat) (w : List Rat) (hw : w.length = n) (hd : 1 ≤ d)
     (i j : Nat) (hi : i < n) (hj : j < n) :
-    denFull (asmDrpls n d lam eta w false) d i j = docDrpls n d lam eta w i j := by sorry
+    denFull (asmDrpls n d lam eta w false) d i j = docDrpls n d lam eta w i j := by
+  show denFull (addB (addB (scale lam (bandsQ n d false)) (padFull (bandsQ n 1 false) (d - 1) n))
+    (shiftRows (colScale (addRowC (scale (-eta) (scale lam (bandsQ n d false))).reverse d 1) w) d d)) d i j = _
+  have hs0 := shape_scale lam _ _ _ (shape_bandsQ_full n d)
+  have hs1 := shape_padFull_D1 n d hd
+  have hsb := shape_addB _ _ _ _ hs0 hs1
+  have hs2 := shape_scale (-eta) _ _ _ hs0
+  have hs3 := shape_reverse _ _ _ hs2
+  have hs4 := shape_colScale _ w _ _ (shape_addRowC _ d 1 _ _ hs3) hw
+  have hs5 := shape_shiftRows _ d d _ _ hs4
+  have key := denFull_shiftRows _ d n i j hs4 hi hj
+  rw [denFull_eq, length_shiftRows, hs4.1] at key
+  rw [denFull_eq, (shape_addB _ _ _ _ hsb hs5).1]
+  unfold docDrpls delta
+  by_cases hb : j ≤ i + d ∧ d + i - j < 2 * d + 1
+  · have hb' : j ≤ i + d ∧ i ≤ j + d := ⟨hb.1, by omega⟩
+    rw [if_pos hb, if_pos hb'] at key
+    have hv : ent (scale (-eta) (scale lam (bandsQ n d false))).reverse (d + i - j) i
+        = -eta * (lam * dtdQ n d i j) := by
+      rw [ent_reverse _ _ _ _ hs2.1, if_pos (by omega), ent_scale, ent_scale]
+      have e : 2 * d + 1 - 1 - (d + i - j) = d + j - i := by omega
+      rw [e, ent_bandsQ_full_eq n d j i hj hi hb'.2 hb'.1, dtdQ_symm n d j i]
+    rw [if_pos hb, ent_addB _ _ _ _ _ _ hsb hs5, key, ent_addB _ _ _ _ _ _ hs0 hs1, ent_scale,
+      ent_bandsQ_full_eq n d i j hi hj hb.1 hb'.2, ent_padFull_D1 n d i j hd hi hj hb.1 hb'.2,
+      ent_colScale, ent_addRowC _ _ _ _ n _ _ hs3, hv]
+    by_cases h2 : i = j
+    · subst h2
+      rw [if_pos ⟨by omega, by omega, hi⟩, if_pos rfl]; ring
+    · rw [if_neg (by omega), if_neg h2]; ring
+  · rw [if_neg hb, if_neg (by omega), dtdQ_band n d i j (by omega), dtdQ_band n 1 i j (by omega)]; ring
+
+
+/-! ### iasls right-hand side -/
+
+def qsum (N : Nat) (f : Nat → Rat) : Rat := sumL ((List.range N).map f)
+
+theorem qsum_zero (f : Nat → Rat) : qsum 0 f = 0 := rfl
+theorem qsum_succ (N : Nat) (f : Nat → Rat) : qsum (N + 1) f = qsum N f + f N := by
+  simp [qsum, sumL, List.range_succ, List.foldl_append]
+theorem qsum_congr {N : Nat} {f g : Nat → Rat} (h : ∀ m, m < N → f m = g m) : qsum N f = qsum N g := by
+  unfold qsum
+  congr 1
+  apply List.map_congr_left
+  intro m hm
+  exact h m (List.mem_range.mp hm)
+theorem qsum_add (N : Nat) (f g : Nat → Rat) : qsum N (fun m => f m + g m) = qsum N f + qsum N g := by
+  induction N with
+  | zero => simp [qsum_zero]
+  | succ N ih => rw [qsum_succ, qsum_succ, qsum_succ, ih]; ring
+theorem qsum_single (N k : Nat) (a : Rat) : qsum N (fun m => if m = k then a else 0) = if k < N then a else 0 := by
+  induction N with
+  | zero => simp [qsum_zero]
+  | succ N ih =>
+    rw [qsum_succ, ih]
+    by_cases h1 : k < N
+    · rw [if_pos h1, if_neg (by omega), if_pos (by omega)]; ring
+    · by_cases h2 : N = k
+      · rw [if_neg h1, if_pos h2, if_pos (by omega)]; ring
+      · rw [if_neg h1, if_neg h2, if_neg (by omega)]; ring
+
+theorem dtdOff1_diag (n i : Nat) : dtdOff n 1 i 0 = (if i + 1 < n then 1 else 0) + (if 1 ≤ i ∧ i < n then 1 else 0) := by
+  simp only [dtdOff, List.range_succ, List.range_zero, List.nil_append, List.map_cons, List.map_nil,
+    List.cons_append, List.sum_cons, List.sum_nil, coef]
+  have e1 : (0 ≤ i ∧ i - 0 + 1 < n ∧ 0 + 0 ≤ 1) ↔ i + 1 < n := by omega
+  have e2 : (1 ≤ i ∧ i - 1 + 1 < n ∧ 1 + 0 ≤ 1) ↔ (1 ≤ i ∧ i < n) := by omega
+  simp only [e1, e2]
+  split <;> split <;> simp
+
+theorem dtdOff1_off (n i : Nat) (h : i + 1 < n) : dtdOff n 1 i 1 = -1 := by
+  simp only [dtdOff, List.range_succ, List.range_zero, List.nil_append, List.map_cons, List.map_nil,
+    List.cons_append, List.sum_cons, List.sum_nil, coef]
+  rw [if_pos (by omega), if_neg (by omega)]; simp
+
+theorem dtdQ1 (n i j : Nat) (hi : i < n) (hj : j < n) :
+    dtdQ n 1 i j = if i = j then (if i + 1 < n then 1 else 0) + (if 1 ≤ i then 1 else 0)
+      else if j = i + 1 ∨ i = j + 1 then -1 else 0 := by
+  unfold dtdQ
+  by_cases h : i = j
+  · subst h
+    have := dtdOff_eq_DtD n 1 i 0 (by omega)
+    rw [Nat.add_zero] at this
+    rw [if_pos rfl, ← this, dtdOff1_diag]
+    have e : (1 ≤ i ∧ i < n) ↔ 1 ≤ i := by omega
+    simp only [e]
+    split <;> split <;> norm_num
+  · rw [if_neg h]
+    by_cases h1 : j = i + 1
+    · subst h1
+      rw [if_pos (Or.inl rfl), ← dtdOff_eq_DtD n 1 i 1 (by omega), dtdOff1_off n i (by omega)]; simp
+    · by_cases h2 : i = j + 1
+      · subst h2
+        rw [if_pos (Or.inr rfl), DtD_symm, ← dtdOff_eq_DtD n 1 j 1 (by omega), dtdOff1_off n j (by omega)]; simp
+      · rw [if_neg (by omega), DtD_band' n 1 i j (by omega)]; simp
+
+theorem iasls_rhs (y : List Rat) (hn : 2 ≤ y.length) (i : Nat) (hi : i < y.length) :
+    (d1y y).getD i 0 = sumL ((List.range y.length).map fun (j : Nat) => dtdQ y.length 1 i j * y.getD j 0) := by
+  show _ = qsum y.length (fun j => dtdQ y.length 1 i j * y.getD j 0)
+  have hsum : qsum y.length (fun j => dtdQ y.length 1 i j * y.getD j 0)
+      = qsum y.length (fun j =>
+          ((if j = i then ((if i + 1 < y.length then 1 else 0) + (if 1 ≤ i then 1 else 0)) * y.getD i 0 else 0)
+           + (if j = i + 1 then - y.getD (i + 1) 0 else 0))
+           + (if j = i - 1 then (if 1 ≤ i then - y.getD (i - 1) 0 else 0) else 0)) := by
+    apply qsum_congr
+    intro j hj
+    rw [dtdQ1 _ i j hi hj]
+    by_cases h : i = j
+    · subst h
+      rw [if_pos rfl, if_pos rfl, if_neg (show ¬ i = i + 1 by omega)]
+      by_cases h0 : 1 ≤ i
+      · rw [if_neg (show ¬ i = i - 1 by omega)]; ring
+      · rw [if_pos (show i = i - 1 by omega), if_neg h0, if_neg h0]; ring
+    · rw [if_neg h, if_neg (show ¬ j = i by omega)]
+      by_cases h1 : j = i + 1
+      · subst h1
+        rw [if_pos (Or.inl rfl), if_pos rfl, if_neg (show ¬ i + 1 = i - 1 by omega)]; ring
+      · by_cases h2 : i = j + 1
+        · subst h2
+          rw [if_pos (Or.inr rfl), if_neg h1, if_pos (show j = j + 1 - 1 by omega), if_pos (show 1 ≤ j + 1 by omega)]
+          have e : j + 1 - 1 = j := by omega
+          rw [e]; ring
+        · rw [if_neg (show ¬ (j = i + 1 ∨ i = j + 1) by omega), if_neg h1]
+          by_cases h3 : j = i - 1
+          · rw [if_pos h3, if_neg (show ¬ 1 ≤ i by omega)]; ring
+          · rw [if_neg h3]; ring
+  rw [hsum, qsum_add, qsum_add, qsum_single, qsum_single, qsum_single, if_pos hi, if_pos (show i - 1 < y.length by omega)]
+  unfold d1y
+  simp only []
+  rw [getD_map_range, if_pos hi, if_neg (show ¬ y.length < 2 by omega)]
+  by_cases h0 : i = 0
+  · subst h0
+    have a1 : 0 + 1 < y.length := by omega
+    have a2 : ¬ 1 ≤ 0 := by omega
+    simp only [if_pos a1, if_neg a2, if_true]; ring
+  · have a0 : 1 ≤ i := by omega
+    by_cases h1 : i = y.length - 1
+    · have a1 : ¬ i + 1 < y.length := by omega
+      have e : y.length - 2 = i - 1 := by omega
+      rw [e, ← h1]
+      simp only [if_neg h0, if_pos a0, if_neg a1, if_true]; ring
+    · have a1 : i + 1 < y.length := by omega
+      simp only [if_neg h0, if_neg h1, if_pos a0, if_pos a1]; ring
 
 end PbVerif.Lemmas
